@@ -353,7 +353,7 @@ theorem prodosPackTok_short (dv : Deduce) (f : FImg) (d : Bytes) (l : Lang) (t :
         match deduce dv d with
         | some a => .ok { desequence f (d ++ t) with access := [prodosAccess], fsType := [0xfc], aux := u16le a }
         | none => .panic
-      | .integer => .ok { desequence f (d ++ t) with access := [prodosAccess], fsType := [0xfa] }
+      | .integer => .ok { desequence f (d ++ t) with access := [prodosAccess], fsType := [0xfa], aux := [0, 0] }
       | .other => .err := by
   unfold prodosPackTok
   rw [if_neg (fun h' => h h'.2)]
@@ -550,7 +550,7 @@ theorem prodosPackRaw_long (f : FImg) (d : Bytes) (h : 2 ^ 24 ≤ d.length) :
   rw [if_pos ⟨rfl, h⟩]
 
 theorem prodosPackRaw_short (f : FImg) (d : Bytes) (h : ¬ 2 ^ 24 ≤ d.length) :
-    packRaw allChecked .prodos f d = .ok { desequence f d with fsType := [4], access := [prodosAccess] } := by
+    packRaw allChecked .prodos f d = .ok { desequence f d with fsType := [4], aux := [0, 0], access := [prodosAccess] } := by
   show prodosPackRaw .checked f d = _
   unfold prodosPackRaw
   rw [if_neg (fun h' => h h'.2)]
@@ -660,11 +660,11 @@ theorem prodos_txt_roundtrip (v : EofLen) (f : FImg) (t : Bytes) (hn : 0 < f.chu
     rw [this, terminate_snoc]
   have hl : ((t' ++ [0x0a]).map prodosEnc).length < 2 ^ 24 := by rw [List.length_map]; exact hlen
   have hnot : ¬ prodosTooLong v ((t' ++ [0x0a]).map prodosEnc).length := fun h => by have := h.2; omega
-  refine ⟨{ desequence f ((t' ++ [0x0a]).map prodosEnc) with access := [prodosAccess], fsType := [4] }, ?_, ?_⟩
+  refine ⟨{ desequence f ((t' ++ [0x0a]).map prodosEnc) with access := [prodosAccess], fsType := [4], aux := [0, 0] }, ?_, ?_⟩
   · unfold prodosPackTxt; rw [henc]; simp only []; rw [if_neg hnot]
   · unfold prodosUnpackTxt
     have hs := eof_unpack_general f
-      ({ desequence f ((t' ++ [0x0a]).map prodosEnc) with access := [prodosAccess], fsType := [4] } : FImg)
+      ({ desequence f ((t' ++ [0x0a]).map prodosEnc) with access := [prodosAccess], fsType := [4], aux := [0, 0] } : FImg)
       ((t' ++ [0x0a]).map prodosEnc) hn rfl rfl
     have h24 : (256 : Nat) ^ (min 8 3) = 2 ^ 24 := by decide
     rw [hs, hw, h24, take_mod_of_lt _ _ hl, beforeFirst_none 0 _ (prodosEnc_ne_zero _ ht), prodosToUtf8_enc _ ht]
@@ -1077,8 +1077,7 @@ theorem repack_raw (v : Variant) (fs : Fs) (f g : FImg) (x y : Bytes) (hw : f.eo
     · rw [if_neg hy] at h
       simp only [Res.ok.injEq] at h
       subst h
-      have key := repack_shape f y x [4] (desequence f y).aux [prodosAccess] (desequence f y).eof (desequence_eof_length f y)
-      simp only [desequence_aux] at key ⊢
+      have key := repack_shape f y x [4] [0, 0] [prodosAccess] (desequence f y).eof (desequence_eof_length f y)
       rw [key]
   · simp only [packRaw, pascalPackRaw, Res.ok.injEq] at h ⊢
     subst h
@@ -1187,9 +1186,8 @@ theorem repack_tok (v : Variant) (fs : Fs) (f g : FImg) (d t d' t' : Bytes) (l :
       | integer =>
         simp only [Res.ok.injEq] at h
         subst h
-        have key := repack_shape f (d ++ t) (d' ++ t') [0xfa] (desequence f (d ++ t)).aux [prodosAccess]
+        have key := repack_shape f (d ++ t) (d' ++ t') [0xfa] [0, 0] [prodosAccess]
           (desequence f (d ++ t)).eof (desequence_eof_length f _)
-        simp only [desequence_aux] at key ⊢
         rw [key]
       | applesoft =>
         simp only [] at h ⊢
@@ -1227,8 +1225,8 @@ theorem repack_txt (v : Variant) (fs : Fs) (f g : FImg) (t t' : Bytes) (hw : f.e
     unfold dosPackTxt
     simp only [hX]
   · simp only [packTxt] at h ⊢
-    have hX : ∀ X, ({ desequence g X with access := [prodosAccess], fsType := [4] } : FImg)
-        = { desequence f X with access := [prodosAccess], fsType := [4] } := by
+    have hX : ∀ X, ({ desequence g X with access := [prodosAccess], fsType := [4], aux := [0, 0] } : FImg)
+        = { desequence f X with access := [prodosAccess], fsType := [4], aux := [0, 0] } := by
       intro X
       unfold prodosPackTxt at h
       cases hd : prodosFromUtf8 [0x0d] t with
@@ -1240,8 +1238,7 @@ theorem repack_txt (v : Variant) (fs : Fs) (f g : FImg) (t t' : Bytes) (hw : f.e
         · cases h
         · simp only [Res.ok.injEq] at h
           subst h
-          have key := repack_shape f dat X [4] (desequence f dat).aux [prodosAccess] (desequence f dat).eof (desequence_eof_length f _)
-          simp only [desequence_aux] at key ⊢
+          have key := repack_shape f dat X [4] [0, 0] [prodosAccess] (desequence f dat).eof (desequence_eof_length f _)
           rw [key]
     unfold prodosPackTxt
     simp only [hX]
